@@ -10,6 +10,9 @@ SITE = "variables_transformer.py:VariableTransformer"
 inf = math.inf
 
 
+# case kinds of corpus/ entries (failing inputs of past regressions) that this module replays on every run
+CORPUS_KINDS = ("bounds",)
+
 def gen_bounds(rng, quick):
     D = rng.randint(1, 6)
     lb, ub, plb, pub = [], [], [], []
@@ -61,15 +64,23 @@ def lg(v):
     return enc(math.log(v)) if (isinstance(v, float) and math.isfinite(v) and v > 0) else None
 
 
-def check(ctx, rep, nsets):
+def check(ctx, rep, nsets, only=None):
+    """`only`: a list of recorded cases (kind "bounds") to re-check instead of generating bound sets."""
     from pybads.variable_transformer import VariableTransformer
+    from ..proto import dec_f
     rng = ctx.sub_rng("c11")
+    if only is not None:
+        nsets = len(only)
     stats = {"sets": 0, "coords": 0, "log_coords": 0, "points": 0, "outside_points": 0, "rejected_sets": 0, "max_roundtrip_rel_width": 0.0,
              "decade_edge": 0, "infinite_bounds": 0}
     reqs, owners = [], []
     for si in range(nsets):
         D, lb, ub, plb, pub = gen_bounds(rng, ctx.quick)
         nonlinear = rng.random() < 0.85
+        if only is not None:
+            oc = only[si]
+            lb, ub, plb, pub = ([float(dec_f(v)) for v in oc[k]] for k in ("lb", "ub", "plb", "pub"))
+            D, nonlinear = len(lb), bool(oc.get("nonlinear", True))
         flag = np.full((1, D), np.nan) if nonlinear else np.zeros((1, D))
         case = {"kind": "bounds", "lb": [enc(v) for v in lb], "ub": [enc(v) for v in ub], "plb": [enc(v) for v in plb], "pub": [enc(v) for v in pub], "nonlinear": nonlinear}
         arrs = [np.array([lb]), np.array([ub]), np.array([plb]), np.array([pub])]
@@ -201,7 +212,11 @@ def run(ctx):
 
 def replay(ctx, data):
     rep = Report()
-    check(ctx, rep, 250)
+    c = data.get("case") or {}
+    if c.get("kind") == "bounds" and all(k in c for k in ("lb", "ub", "plb", "pub")):
+        check(ctx, rep, 1, only=[c])
+    else:
+        check(ctx, rep, 250)
     return rep
 
 
